@@ -30,7 +30,7 @@ REQUIRED_PROBES = ('goal_created_started_later', 'fault_assert_overflow', 'fault
                    'query_enum_visited_removed', 'two_enums_same_predicate', 'idiom_drain', 'idiom_upd', 'clear_under_suspended_enum')
 
 KEYS = [('p', 1), ('c', 1), ('p', 2), ('tok', 0)]
-VALS = [['a', 'a'], ['a', 'b'], ['a', 'c'], ['a', 'd']]
+VALS = [['a', 'a'], ['a', 'b'], ['a', 'c'], ['a', 'd'], ['i', 0], ['i', 1]]       # (the last two: plain Python constants)
 NONGROUND = [['v', 0], ['f', 'f', [['v', 0]]], ['f', 'g', [['a', 'a'], ['v', 0]]], ['f', 'f', [['a', 'b']]]]
 IDIOM_LINE_BUDGET = 20000
 _IDIOMS = None
@@ -182,7 +182,7 @@ def is_deep(row):
 
 
 def gen_pat(rng, ar):
-    return [rng.choice(VALS) if rng.random() < 0.35 else ['v', rng.randrange(2)] for _ in range(ar)]
+    return [rng.choice(VALS if rng.random() < 0.3 else VALS[:4]) if rng.random() < 0.35 else ['v', rng.randrange(2)] for _ in range(ar)]
 
 
 def gen(seed, tier):
@@ -190,7 +190,7 @@ def gen(seed, tier):
     m = ModelSim()
     ops = []
     keys = rng.choice(([0], [0], [1], [0, 1], [2], [0, 1, 2], [3], [0, 3]))
-    nvals = rng.choice((2, 3, 4))
+    nvals = rng.choice((2, 3, 4, 6, 6))
     p_idiom = rng.choice((0.0, 0.03, 0.08))
     nonground = rng.random() < 0.3
     depth_faults = rng.random() < 0.15       # runs with deep facts and operations that overflow the stack (no idioms: their line budget is for small terms)
